@@ -487,7 +487,8 @@ class PageXMLTableCell(PageXMLDoc):
         self.set_as_parent(self.lines)
         # Initial value is concatenated text of lines, but can be overwritten by user
         # with e.g. interpreted/evaluated text
-        self.value = " ".join([line.text for line in self.lines])
+        # (a line without text, e.g. an empty Unicode element, contributes nothing)
+        self.value = " ".join([line.text for line in self.lines if line.text is not None])
         self.row = row
         self.col = col
         self.row_span = row_span
